@@ -118,7 +118,16 @@ def build(case, route=None):
     txt = '[Tabulation]\ntarget : LAMMPS\nnr : 5\ncutoff : 1.0\n[Pair]\nA-B : %s\n' % d
     return Configuration().read(io.StringIO(txt)).potentials[0].potentialFunction
 
+def build_sibling(case, route=None):
+    """a spline with the same end potentials, detach and attach but another r_min, built just before the one under test: what was
+    built earlier in the process must not matter"""
+    if case['kind'] != 'buck4': return
+    sib = dict(case); sib['r_min'] = (case['r_min'] + case['attach']) / 2.0
+    try: build(sib, route)
+    except Exception: pass
+
 def observe(case, route=None):
+    build_sibling(case, route)
     with SolveRecorder() as rec:
         f = build(case, route)
     if len(rec.calls) != 1: raise AssertionError('numpy.linalg.solve was called %d times' % len(rec.calls))
@@ -258,6 +267,7 @@ def richardson(f, x, h):
 def oracle(case):
     fails = []
     if not well_conditioned(case): return []
+    build_sibling(case)
     try: f = build(case)
     except Exception as e: return ['building the splined potential raised %s: %s' % (type(e).__name__, str(e)[:120])]
     s, e = py_leaf(case['start']), py_leaf(case['end'])
